@@ -11,6 +11,14 @@
 //     the table's file:line rows), the FUNCTIONS from the innermost round/block frames of the two stacks. racy iff a
 //     report maps to the triple, else sync.
 //
+// Plus one operation per ownership-by-index site (a shared slice written without a lock, race-free only while the goroutines
+// write disjoint indices — Model/IndexOwn.lean):   slots VT.aggregator
+//   - the driver answers disjoint | shared from the extracted arithmetic (stride, bound and aggregator batch size must be
+//     one expression);
+//   - the implementation side runs the real mc.ValidateTransactions through the signature aggregation (bls0chain, batch
+//     size 4, 1000+ blocks of 5/9/13 valid transactions) under -race: shared iff two workers race inside
+//     BLS0ChainAggregateSignatureScheme.Aggregate or a valid block is rejected (signature C44:race:aggregator-slot-shared-by-workers).
+//
 // A disagreement "model sync / detector racy" means the extractor is unsound there (VIOLATION); "model racy / detector
 // sync" means the table is imprecise there or the schedule search missed it (BROKEN correspondence — fix the scenario
 // or list the triple under `notDriven` with the reason). The oracle reports every reproduced race as a violation
@@ -63,12 +71,31 @@ type entry struct {
 	Group    int    `json:"group"`
 	SelfConc bool   `json:"self_conc"`
 }
-type table struct {
-	Accesses []row   `json:"accesses"`
-	Calls    []call  `json:"calls"`
-	Entries  []entry `json:"entries"`
-	Gosrc    string  `json:"gosrc"`
+type stridedSite struct {
+	Name      string `json:"name"`
+	Stride    string `json:"stride"`
+	Div       string `json:"div"`
+	SlotFile  string `json:"slot_file"`
+	SlotLines []int  `json:"slot_lines"`
 }
+type table struct {
+	Accesses []row         `json:"accesses"`
+	Calls    []call        `json:"calls"`
+	Entries  []entry       `json:"entries"`
+	Gosrc    string        `json:"gosrc"`
+	Strided  []stridedSite `json:"strided_sites"`
+}
+
+// ownership by index: the lock-free aggregator of ValidateTransactions (op `slots VT.aggregator`)
+const aggSig = "C44:race:aggregator-slot-shared-by-workers"
+
+var (
+	aggWanted   bool
+	aggExecuted bool
+	aggRace     string // excerpt of the first race report with both stacks inside Aggregate
+	aggStats    string // the child's "validations=… failed=…" line
+	aggFailed   int
+)
 
 type triple struct{ loc, a, b string }
 
@@ -461,6 +488,12 @@ func parseLog(log string, gosrc string) {
 				a, _ := strconv.ParseUint(strings.TrimPrefix(w[3], "0x"), 16, 64)
 				objs = append(objs, object{w[2], a})
 			}
+		case strings.HasPrefix(l, "=== AGG "):
+			aggStats = strings.TrimPrefix(l, "=== AGG ")
+			if m := regexp.MustCompile(`failed=(\d+)`).FindStringSubmatch(l); m != nil {
+				n, _ := strconv.Atoi(m[1])
+				aggFailed += n
+			}
 		case strings.HasPrefix(l, "=== HANG "):
 			hangs = append(hangs, l)
 		case strings.HasPrefix(l, "=== PANICS "):
@@ -546,6 +579,31 @@ func handleReport(lines []string, scen [2]string, objs []object, gosrc string) {
 		if _, ok := observed[t]; !ok {
 			observed[t] = excerpt()
 		}
+	}
+
+	// (0) both stacks are inside the lock-free aggregator's slot accesses: two batch workers share a slot
+	inAgg := func(sd side) bool {
+		for _, f := range sd.frames {
+			if strings.Contains(f.fn, "BLS0ChainAggregateSignatureScheme") && strings.Contains(f.fn, "Aggregate") {
+				return true
+			}
+			for _, st := range tab.Strided {
+				if f.file == gosrc+"/"+st.SlotFile {
+					for _, ln := range st.SlotLines {
+						if ln == f.line {
+							return true
+						}
+					}
+				}
+			}
+		}
+		return false
+	}
+	if inAgg(sides[0]) && inAgg(sides[1]) {
+		if aggRace == "" {
+			aggRace = excerpt()
+		}
+		return
 	}
 
 	// (1) the address lies inside a Round / Block object of the scenario: the location is the field at that offset,
@@ -688,8 +746,12 @@ func search(all []triple, thorough bool) {
 			ts = append(ts, t)
 		}
 	}
+	pend := aggWanted && !aggExecuted
 	mu.Unlock()
 	if len(ts) == 0 {
+		if pend {
+			runTriples(nil, func(triple) int { return 1 }, 1, false)
+		}
 		return
 	}
 	verdict := map[triple]string{}
@@ -760,7 +822,8 @@ func runTriples(ts []triple, per func(triple) int, mult int, force bool) {
 			todo = append(todo, t)
 		}
 	}
-	if len(todo) == 0 || childErr != "" {
+	aggPending := aggWanted && !aggExecuted
+	if (len(todo) == 0 && !aggPending) || childErr != "" {
 		return
 	}
 	if childBin == "" {
@@ -772,6 +835,11 @@ func runTriples(ts []triple, per func(triple) int, mult int, force bool) {
 		timing["build_child_s"] = time.Since(t0).Seconds()
 	}
 	pairs, _ := plan(todo, per)
+	if aggPending {
+		// the stress case of the ownership-by-index site: bls0chain, batch size 4, blocks of 5/9/13 signed transactions
+		pairs = append(pairs, [2]string{"VT.aggregator", "VT.aggregator"})
+		aggExecuted = true
+	}
 	// the child may die in the middle of a scenario (the Go runtime aborts on a concurrent map read/write): that
 	// scenario is recorded as a crash and the child is restarted with the pairs that follow it
 	for attempt := 0; len(pairs) > 0 && attempt < 12; attempt++ {
@@ -847,12 +915,32 @@ func impl(ops []string) []string {
 			need = append(need, t)
 		}
 	}
+	for _, op := range ops {
+		if strings.HasPrefix(op, "slots ") {
+			mu.Lock()
+			aggWanted = true
+			mu.Unlock()
+		}
+	}
 	search(need, thoroughTier)
 	outs := make([]string, len(ops))
 	for i, op := range ops {
 		switch {
 		case op == "init":
 			outs[i] = "ok"
+		case strings.HasPrefix(op, "slots "):
+			mu.Lock()
+			switch {
+			case childErr != "":
+				outs[i] = "child-failed"
+			case op != "slots VT.aggregator" || !aggExecuted:
+				outs[i] = "none"
+			case aggRace != "" || aggFailed > 0:
+				outs[i] = "shared"
+			default:
+				outs[i] = "disjoint"
+			}
+			mu.Unlock()
 		default:
 			t, ok := parseOp(op)
 			if !ok {
@@ -880,6 +968,18 @@ func oracle(ops, outs []string) *corr.Violation {
 	for i, op := range ops {
 		if outs[i] == "child-failed" {
 			return &corr.Violation{Signature: "C44:race-child-failed", Message: childErr, Ops: ops, Impl: outs}
+		}
+		if outs[i] == "shared" {
+			mu.Lock()
+			msg := fmt.Sprintf("batch workers of miner.Chain.ValidateTransactions share a slot of the lock-free signature aggregator (bls0chain, validation batch size 4, blocks of 5/9/13 valid transactions; %s)", aggStats)
+			if aggRace != "" {
+				msg += ": the race detector reports the unsynchronised check-then-set of encryption.BLS0ChainAggregateSignatureScheme.Aggregate from two workers (" + aggRace + ")"
+			}
+			if aggFailed > 0 {
+				msg += fmt.Sprintf("; %d validations of VALID blocks failed (a signature was dropped from the aggregate)", aggFailed)
+			}
+			mu.Unlock()
+			return &corr.Violation{Signature: aggSig, Message: msg, Ops: ops, Impl: outs}
 		}
 		if outs[i] != "racy" {
 			continue
@@ -930,6 +1030,10 @@ func main() {
 	var fixed [][]string
 	for _, t := range ts {
 		fixed = append(fixed, []string{"init", t.op()})
+	}
+	for _, st := range tab.Strided {
+		fixed = append(fixed, []string{"init", "slots " + st.Name})
+		aggWanted = !replay
 	}
 	if !replay {
 		search(ts, thorough)
@@ -991,7 +1095,7 @@ func main() {
 			return map[string]interface{}{
 				"triples_asked": len(ts), "triples_not_driven_listed": skipped, "triples_without_drivable_entries": nd,
 				"race_reports": nReports, "scenarios_run": nScen, "races_observed": obs, "unmapped_reports": unmapped,
-				"ambiguous_reports": ambiguous, "runtime_aborts": crashes, "reports_on_other_objects": len(foreign), "reports_on_other_objects_sample": foreign[:min(5, len(foreign))], "hangs": hangs, "panics": panics, "iterations_per_goroutine": iters,
+				"ambiguous_reports": ambiguous, "runtime_aborts": crashes, "aggregator_stress": aggStats, "aggregator_race": aggRace, "reports_on_other_objects": len(foreign), "reports_on_other_objects_sample": foreign[:min(5, len(foreign))], "hangs": hangs, "panics": panics, "iterations_per_goroutine": iters,
 				"child": childBin, "model_racy_not_yet_seen_before_retry_1_2": retried, "retried": retriedOps, "timing": timing,
 			}
 		},
